@@ -108,8 +108,11 @@ def check_op(ctx, op, where):
 
 
 def check_receiver(ctx, trx, where):
-    for tag, snr, osnr, nli in (('raw', trx.raw_snr, trx.raw_osnr_ase, trx.raw_osnr_nli),
-                                ('reported', trx.snr, trx.osnr_ase, trx.osnr_nli)):
+    # the figures reported to the user are judged always; the line-only ("raw") triple where the receiver keeps one
+    figures = [('reported', trx.snr, trx.osnr_ase, trx.osnr_nli)]
+    if all(hasattr(trx, a) for a in ('raw_snr', 'raw_osnr_ase', 'raw_osnr_nli')):
+        figures.insert(0, ('raw', trx.raw_snr, trx.raw_osnr_ase, trx.raw_osnr_nli))
+    for tag, snr, osnr, nli in figures:
         lhs = db2lin(-np.asarray(snr, dtype=float))
         rhs = db2lin(-np.asarray(osnr, dtype=float)) + db2lin(-np.asarray(nli, dtype=float))
         ctx.count('receiver_identity_checks')
@@ -136,7 +139,11 @@ def run_ops(case, ctx):
         carriers = G.gen_carriers(rng, n_max=40, n_min=2, max_dbm=10.0, min_dbm=-30.0)
         if len(carriers) < 2:
             continue
-        si = G.carriers_to_si(carriers, shuffle_rng=rng)
+        # powers handed over in single precision (measurement data): the bookkeeping identity is about the three
+        # shares, which must stay consistent whatever the precision of the powers; the double-precision shadow model
+        # and the scaling laws are judged on double-precision inputs only
+        f32 = rng.random() < 0.15
+        si = G.carriers_to_si(carriers, shuffle_rng=rng, pch_dtype=np.float32 if f32 else None)
         ld = np.longdouble
         S = {float(f): ld(p) for f, p in zip(si.frequency, si.pch)}
         A = {f: ld(0) for f in S}
@@ -210,8 +217,11 @@ def run_ops(case, ctx):
             fr = [float(f) for f in si.frequency]
             tot = np.array([float(S[f] + A[f] + N[f]) for f in fr])
             snap = attach.Snap(si)
-            if not check_shares(ctx, snap, f'ops step {step} ({op})'):
+            if not check_shares(ctx, snap, f'ops step {step} ({op})' + (' [float32 powers]' if f32 else '')):
                 break
+            if f32:
+                ctx.count('single_precision_steps')
+                continue
             ok = close(snap.pch, tot, 1e-10) and close(snap.pch * snap.sr, [float(S[f]) for f in fr], 1e-10, 1e-300) \
                 and close(snap.pch * snap.ar, [float(A[f]) for f in fr], 1e-10, 1e-300) \
                 and close(snap.pch * snap.nr, [float(N[f]) for f in fr], 1e-10, 1e-300)
@@ -223,7 +233,8 @@ def run_ops(case, ctx):
             if si.number_of_channels < 2:
                 break
         for o in attach.OPS:
-            check_op(ctx, o, 'ops')
+            if not f32:
+                check_op(ctx, o, 'ops')
         attach.reset()
         if {'ase', 'nli', 'split'} <= kinds:
             ctx.nontrivial(('ops', log, len(carriers), carriers[0]['frequency']))
